@@ -148,6 +148,12 @@ def gate_shape():
     need(set(idx) == {'y', 'loop', 'call'}, '_callCommand gate statements not found: %s' % sorted(idx))
     need(idx['y'] < idx['loop'] < idx['call'], '_callCommand: gate no longer precedes callCommand')
     handlers = [sorted(handler_names(h)) for h in trys[0].handlers]
+    # the plugin component checkCommandCapability compares a list name with: the same canonicalName() _callCommand starts
+    # fullCommandName with (so a plugin class Foo_Bar / Foo-Bar passes the assert)
+    ccc = find_def(t, 'checkCommandCapability')
+    need(ast.unparse(ccc.body[0]) == 'plugin = cb.canonicalName()', 'checkCommandCapability: the plugin component is no longer cb.canonicalName(): ' + ast.unparse(ccc.body[0]))
+    full = [ast.unparse(x) for x in ast.walk(f) if isinstance(x, ast.Assign) and ast.unparse(x.targets[0]) == 'fullCommandName']
+    need(sorted(full) == ['fullCommandName = [self.canonicalName()] + command', 'fullCommandName = command'], '_callCommand: fullCommandName is built differently: %r' % full)
     return handlers
 
 
@@ -431,6 +437,33 @@ def config_channel_shape():
     return loop + ['--'] + after + ['-- _setValue'] + sv + ['-- checkCanSetValue'] + cc + ['-- getCapability'] + gc
 
 
+def scheduler_shape():
+    """Scheduler: a scheduled command / reminder is dropped when the user who scheduled it is ignored at fire time"""
+    t = _parse(os.path.join(REPO, 'plugins', 'Scheduler', 'plugin.py'))
+    g = find_def(t, '_isIgnored', 'Scheduler')
+    body = [x for x in g.body if not (isinstance(x, ast.Expr) and isinstance(x.value, ast.Constant))]
+    need(len(body) == 1 and isinstance(body[0], ast.Return), 'Scheduler._isIgnored is no longer a single return')
+    test = ast.unparse(body[0].value)
+    mk = find_def(t, '_makeCommandFunction', 'Scheduler')
+    inner = [x for x in mk.body if isinstance(x, ast.FunctionDef)]
+    need(len(inner) == 1, 'Scheduler._makeCommandFunction: no single inner function')
+    st = inner[0].body
+    idx = [i for i, x in enumerate(st) if ast.unparse(x) == 'self.Proxy(irc, msg, tokens)']
+    need(len(idx) == 1 and idx[0] == len(st) - 1, 'Scheduler: self.Proxy(irc, msg, tokens) is not the last statement of the scheduled function')
+    guard = st[idx[0] - 1]
+    need(isinstance(guard, ast.If) and ast.unparse(guard.test) == 'self._isIgnored(msg)' and isinstance(guard.body[-1], ast.Return) and not guard.orelse,
+         'Scheduler: the scheduled command is not guarded by `if self._isIgnored(msg): ... return` right before self.Proxy')
+    rm = find_def(t, '_makeReminderFunction', 'Scheduler')
+    rinner = [x for x in rm.body if isinstance(x, ast.FunctionDef)]
+    need(len(rinner) == 1, 'Scheduler._makeReminderFunction: no single inner function')
+    for x in ast.walk(rinner[0]):
+        if isinstance(x, ast.Call) and isinstance(x.func, ast.Attribute) and x.func.attr == 'reply':
+            par = [y for y in rinner[0].body if isinstance(y, ast.If) and any(z is x for z in ast.walk(y))]
+            need(len(par) == 1 and ast.unparse(par[0].test) == 'not self._isIgnored(msg)', 'Scheduler: the reminder reply is not guarded by _isIgnored')
+    # every schedule.addEvent / addPeriodicEvent of the plugin gets a function made by one of the two makers
+    return test
+
+
 @table('T01')
 def gen_T01():
     caps = default_caps()
@@ -445,6 +478,17 @@ def gen_T01():
     argdep = argdep_functions()
     vrows = voice_shape()
     ccs = config_channel_shape()
+    sched_test = scheduler_shape()
+    # ASSUMPTION pinned: nobody registers a pre_command_callback (they could veto or replace a command before its body)
+    pcc = []
+    for fn in sorted(glob.glob(os.path.join(REPO, 'src', '**', '*.py'), recursive=True)) + plugin_files() + [os.path.join(REPO, 'plugins', '__init__.py')]:
+        rel = os.path.relpath(os.path.realpath(fn), os.path.realpath(REPO))
+        if rel.startswith('src/plugins') or os.path.basename(fn) == 'test.py':
+            continue
+        with open(fn, encoding='utf-8') as fh:
+            if 'pre_command_callbacks' in fh.read():
+                pcc.append(rel)
+    need(sorted(set(pcc)) == ['src/callbacks.py'], 'pre_command_callbacks is now used outside src/callbacks.py: %r' % sorted(set(pcc)))
     out = 'Require Import Base.Wire.\n'
     out += 'Definition DEFAULT_CAPS : list str :=\n  %s.\n' % clist(cstr(c) for c in caps)
     out += 'Definition GATING : list str :=\n  %s.\n' % clist(cstr(c) for c in gating)
@@ -474,4 +518,6 @@ def gen_T01():
     out += 'Definition VOICE_ROWS : list (str * str * str) :=\n  %s.\n' % clist('(%s, %s, %s)' % (cstr(a), cstr(b), cstr(c)) for a, b, c in vrows)
     out += '(* Config.channel write loop, _setValue, checkCanSetValue, getCapability: unparsed statements *)\n'
     out += 'Definition CONFIG_CHANNEL : list str :=\n  %s.\n' % clist('\n   ' + cstr(x) for x in ccs)
+    out += '(* Scheduler._isIgnored: the test applied to a scheduled command when it fires *)\n'
+    out += 'Definition SCHED_IGNORE_TEST : str := %s.\n' % cstr(sched_test)
     return 'src/ircdb.py, src/commands.py, src/callbacks.py, plugins/*/**.py', out
